@@ -41,7 +41,10 @@ class TState:
 class Scheduler:
     WATCHDOG = 20.0
 
-    def __init__(self, budget=2000):
+    def __init__(self, budget=2000, trace_files=None):
+        # trace_files: source files in which EVERY line is a yield point
+        # (statement-granularity scheduling via sys.settrace)
+        self.trace_files = set(trace_files or ())
         self.ts = {}
         self.by_ident = {}
         self.main = _threading.Semaphore(0)
@@ -81,16 +84,29 @@ class Scheduler:
             self.by_ident[_threading.get_ident()] = st
             st.sem.acquire()
             try:
+                if self.trace_files:
+                    sys.settrace(self._global_trace)
                 st.result = fn()
             except BaseException as e:      # noqa
                 st.exc = e
             finally:
+                sys.settrace(None)
                 st.done = True
                 st.pending = ('done', None)
                 self.main.release()
         st.thread = _threading.Thread(target=body, daemon=True)
         st.thread.start()
         return st
+
+    def _global_trace(self, frame, event, arg):
+        if frame.f_code.co_filename in self.trace_files:
+            return self._local_trace
+        return None
+
+    def _local_trace(self, frame, event, arg):
+        if event == 'line':
+            self.announce('line', None)
+        return self._local_trace
 
     def enabled(self, tid):
         st = self.ts[tid]
